@@ -27,6 +27,10 @@ type input struct {
 	cmps    int
 	seen    map[string]bool
 	errText map[string]bool
+	// sibling: another load sharing the directory and the files of input `of` but with
+	// another environment or other options — an "other load executed before" for it
+	sibling bool
+	of      *input
 }
 
 type replayCase struct {
@@ -64,16 +68,22 @@ func drawInput(s *core.Shard, j int, corpus []*ld.Case) *input {
 		return in
 	}
 	cfg := gen.Config{
-		Density:    []float64{0.15, 0.3, 0.5}[r.Intn(3)],
-		Profiles:   r.Intn(3) == 0,
-		TrickyText: r.Intn(3) == 0,
-		Variables:  r.Intn(3) == 0,
-		Layout:     r.Intn(10) < 7,
-		MultiSSH:   true,
-		Force:      map[string]bool{},
+		Density:     []float64{0.15, 0.3, 0.5}[r.Intn(3)],
+		Profiles:    r.Intn(3) == 0,
+		TrickyText:  r.Intn(3) == 0,
+		Variables:   r.Intn(2) == 0,
+		Layout:      r.Intn(10) < 7,
+		MultiSSH:    true,
+		SharedFiles: r.Intn(2) == 0,
+		Force:       map[string]bool{},
 	}
 	bias := mapToSequenceBias()
+	biasKeys := make([]string, 0, len(bias))
 	for k := range bias {
+		biasKeys = append(biasKeys, k)
+	}
+	sort.Strings(biasKeys) // the draw must not depend on map order
+	for _, k := range biasKeys {
 		if r.Intn(2) == 0 {
 			cfg.Force[k] = true
 		}
@@ -83,6 +93,22 @@ func drawInput(s *core.Shard, j int, corpus []*ld.Case) *input {
 	}
 	m := gen.Draw(r, cfg)
 	in.origin = "generated"
+	if l := m.Layout; l != nil && r.Intn(2) == 0 {
+		// bases in another file (their content depends on the environment of the load when they
+		// carry variables); a service of an included project addresses its base relative to the
+		// included file, so those keep their same-file bases
+		included := map[string]bool{}
+		if l.Include != nil {
+			for _, n := range l.Include.Services {
+				included[n] = true
+			}
+		}
+		for n, e := range l.Extends {
+			if !included[n] {
+				e.File, e.Short = "./"+gen.BaseDir+"/base.yaml", false
+			}
+		}
+	}
 	if r.Intn(4) == 0 {
 		m.Doc["version"] = "3.9"
 		in.origin = "generated+version"
@@ -149,12 +175,12 @@ func materialise(root string, k int, in *input) error {
 	return ld.Materialise(in.dir, in.c)
 }
 
-func runBatch(s *core.Shard, id string, batch []*input, reps, perms int, r *rand.Rand) {
+func runBatch(s *core.Shard, id string, batch []*input, reps, perms int, r *rand.Rand) []*input {
 	root := s.Scratch()
 	for k, in := range batch {
 		if err := materialise(root, k, in); err != nil {
 			s.Inconclusive("harness: " + err.Error())
-			return
+			return batch
 		}
 		s.Cover("origin", in.origin)
 		s.Cover("options", in.opts.String())
@@ -174,10 +200,50 @@ func runBatch(s *core.Shard, id string, batch []*input, reps, perms int, r *rand
 			}
 		}
 	}
+	// ---- siblings: the same files loaded with another environment / other options ----
+	for _, in := range append([]*input(nil), batch...) {
+		if in.model == nil {
+			continue
+		}
+		for v := 0; v < 2; v++ {
+			sc := *in.c
+			sc.Env = map[string]string{}
+			for k2, v2 := range in.c.Env {
+				sc.Env[k2] = v2
+			}
+			switch v {
+			case 0: // every variable gets another value
+				for k2, v2 := range in.c.Env {
+					sc.Env[k2] = v2 + "-alt"
+				}
+				for _, name := range in.model.Vars {
+					if _, set := sc.Env[name]; !set {
+						sc.Env[name] = "alt-" + name
+					}
+				}
+				sc.Env["TIER_UNSET"] = "alt-tier"
+			case 1: // other options on the same files
+				switch r.Intn(3) {
+				case 0:
+					sc.Opts.SkipInterpolation = true
+				case 1:
+					sc.Opts.SkipNormalization = !sc.Opts.SkipNormalization
+				default:
+					sc.Opts.SkipResolveEnvironment = true
+				}
+			}
+			batch = append(batch, &input{id: fmt.Sprintf("%s/sibling%d", in.id, v), origin: "sibling", c: &sc, dir: in.dir, opts: sc.Opts,
+				seen: map[string]bool{}, errText: map[string]bool{}, sibling: true, of: in})
+		}
+	}
 	// ---- repeated loads, interleaved in shuffled order ----
 	var sched []int
-	for k := range batch {
-		for i := 0; i < reps; i++ {
+	for k, in := range batch {
+		n := reps
+		if in.sibling {
+			n = (reps + 3) / 4
+		}
+		for i := 0; i < n; i++ {
 			sched = append(sched, k)
 		}
 	}
@@ -228,16 +294,35 @@ func runBatch(s *core.Shard, id string, batch []*input, reps, perms int, r *rand
 		}
 	}
 	// ---- one load each in a fresh process ----
-	var jobs []childJob
-	for _, in := range batch {
-		jobs = append(jobs, childJob{Dir: in.dir, Case: in.c})
+	// An input and its siblings share their files; each goes to another process, so that no
+	// process has loaded the same files with another environment or other options before.
+	groups := map[int][]int{}
+	for k, in := range batch {
+		g := 0
+		if in.sibling {
+			g = 1
+			if strings.HasSuffix(in.id, "sibling1") {
+				g = 2
+			}
+		}
+		groups[g] = append(groups[g], k)
 	}
-	results, err := runChild(root, jobs)
-	if err != nil {
-		s.Inconclusive("fresh-process comparison failed: " + err.Error())
-	} else {
-		for k, res := range results {
-			in := batch[k]
+	for g := 0; g < 3; g++ {
+		idx := groups[g]
+		if len(idx) == 0 {
+			continue
+		}
+		var jobs []childJob
+		for _, k := range idx {
+			jobs = append(jobs, childJob{Dir: batch[k].dir, Case: batch[k].c})
+		}
+		results, err := runChild(root, jobs)
+		if err != nil {
+			s.Inconclusive("fresh-process comparison failed: " + err.Error())
+			continue
+		}
+		for i, res := range results {
+			in := batch[idx[i]]
 			if in.first != nil && in.first.Class == "ok" && in.first.Canon == "" {
 				in.first.Canon = canon(in.first.proj)
 			}
@@ -248,6 +333,9 @@ func runBatch(s *core.Shard, id string, batch []*input, reps, perms int, r *rand
 	for _, in := range batch {
 		if in.okLoads >= 2 {
 			s.Nontrivial(in.c.Key())
+		}
+		if in.sibling {
+			s.Cover("origin", "sibling")
 		}
 		if len(in.errText) > 1 {
 			s.Add("error_text_varies", 1)
@@ -261,6 +349,7 @@ func runBatch(s *core.Shard, id string, batch []*input, reps, perms int, r *rand
 				"loads_compared": in.cmps, "yaml_digest": digest(in.first.YAML), "json_digest": digest(in.first.JSON), "verdict": "all loads agreed"})
 		}
 	}
+	return batch
 }
 
 // observe records one result of an input and compares it with the input's first result.
@@ -285,6 +374,13 @@ func observe(s *core.Shard, in *input, res *result, mode string, variant *ld.Cas
 	for _, d := range compare(in.first, res) {
 		report(s, in, d, mode, variantFiles(in, res, variant))
 	}
+}
+
+func clip(x string, n int) string {
+	if len(x) > n {
+		return x[:n] + "\n... (clipped)"
+	}
+	return x
 }
 
 var reNum = regexp.MustCompile(`[0-9]+`)
